@@ -1047,6 +1047,28 @@ fn cfg_inventory<'tcx>(tcx: TyCtxt<'tcx>) -> Vec<J> {
             self.note(&p.attrs, "param", "");
             visit::walk_param(self, p);
         }
+        fn visit_mac_call(&mut self, m: &'ast ast::MacCall) {
+            // configuration-dependent macros: cfg!(..) and the debug_assert family (compiled out without debug_assertions)
+            if let Some(seg) = m.path.segments.last() {
+                let n = seg.ident.name.to_string();
+                if n == "cfg" || n.starts_with("debug_assert") {
+                    let lo = self.sm.lookup_char_pos(m.path.span.lo());
+                    self.out.push(
+                        J::obj()
+                            .fs("file", self.file.clone())
+                            .fi("line", lo.line as i128)
+                            .fs("node", format!("mac:{}", n))
+                            .fs("name", n.clone())
+                            .fs("enclosing", self.stack.join("::"))
+                            .fs("attr", "macro")
+                            .fb("inner", false)
+                            .fs("text", format!("{}!({})", n, rustc_ast_pretty::pprust::tts_to_string(&m.args.tokens)))
+                            .done(),
+                    );
+                }
+            }
+            visit::walk_mac(self, m);
+        }
     }
     let mut out = Vec::new();
     for p in paths {
